@@ -945,6 +945,7 @@ def fixed_histories():
                                        'CC([Pt])O'),
              ('GRWSurface2018', 'PtSurface2023', '[Pt]CC'),
              ('XieGA2022', 'BensonGA', 'CCC'),
+             ('GuSolventGA2017Vac', 'GuSolventGA2017Aq', 'C(=O)([Pt])O'),
              ('SalciccioliGA2012', 'GRWSurface2018', 'C([Pt])C[Pt]')]
     variants = []
     for T in (298.15, 500.0):
